@@ -108,7 +108,10 @@ def gen_sweep(seed, spb, lbits, maxpoints=90, dup_only=False):
                    'erase %d ; insert %d 7' % (victim, newk), 'erase %d ; upsert %d ctx:1:1 1 7' % (victim, newk),
                    'erase %d ; insert %d 7' % (victim, newk)])
     if dup_only:
-        o1 = r.choice(['erase %d ; insert %d 7' % (victim, newk), 'erase %d ; upsert %d ctx:1:1 1 7' % (victim, newk)])
+        # ... or after a complete resize by the other thread (the duplicate then lives at the new size's buckets)
+        o1 = r.choice(['erase %d ; insert %d 7' % (victim, newk), 'erase %d ; upsert %d ctx:1:1 1 7' % (victim, newk),
+                       'erase %d ; rehash %d ; insert %d 7' % (victim, r.choice([4, 5]), newk),
+                       'erase %d ; reserve %d ; upsert %d ctx:1:1 1 7' % (victim, r.choice([40, 70]), newk)])
         t0 = r.choice(['insert %d 5' % newk, 'upsert %d ctx:1:1 1 5' % newk, 'uprase %d ctx:1:1 1 5' % newk, 'ioa %d 5' % newk])
     others.append(o1)
     if r.random() < 0.5 and not dup_only:
@@ -167,11 +170,18 @@ def gen_sweep_layout(seed, spb, lbits, maxpoints=140):
     victim = r.choice(resY)
     t0 = r.choice(['insert %d 5' % K, 'upsert %d ctx:1:1 1 5' % K, 'uprase %d ctx:1:1 1 5' % K, 'ioa %d 5' % K])
     t1 = r.choice(['erase %d ; insert %d 7' % (victim, K), 'erase %d ; upsert %d ctx:1:1 1 7' % (victim, K)])
-    body = ['thread 0 ' + t0, 'thread 1 ' + t1]
+    variants = [t1]
+    if r.random() < 0.5:
+        # the other thread erases an element of the displacement path (each resident of X in turn) between the path
+        # search and the move: the erased element must stay erased (later find / update functors are not invoked on it)
+        variants = [r.choice(['erase %d ; find %d' % (pv, pv), 'erasefn %d eraseifeq:%d ; updatefn %d add:1' % (pv, 10 * pv, pv)]) for pv in resX]
+        maxpoints = min(maxpoints, 90)
     scripts = []
-    for j in range(1, maxpoints):
-        sched = [0] * j + [1] * 300
-        scripts.append('\n'.join(hdr + body + ['sched ' + ' '.join(map(str, sched))]) + '\n')
+    for t1 in variants:
+        body = ['thread 0 ' + t0, 'thread 1 ' + t1]
+        for j in range(1, maxpoints):
+            sched = [0] * j + [1] * 300
+            scripts.append('\n'.join(hdr + body + ['sched ' + ' '.join(map(str, sched))]) + '\n')
     return scripts
 
 def gen_sweep2_layout(seed, spb, lbits, max1=34, max2=22):
